@@ -116,15 +116,18 @@ def cfg_settings(cfg, dirs, app_dirs=()):
 
 
 def cfg_effective(cfg):
-    from django_components.app_settings import defaults
+    # default settings = the suffix lists of /repo's `defaults` object; if that object does not hold lists of suffix strings, the
+    # DOCUMENTED default suffix lists (gen_c17.default_lists) - the generator then also records a broken proof obligation
+    import gen_c17
+    dallowed, dforbidden, _ = gen_c17.default_lists()
     allowed = cfg.get("allowed")
     if allowed is None:
-        allowed = [["suf", s] for s in defaults.static_files_allowed]
+        allowed = [["suf", s] for s in dallowed]
     forb = cfg.get("forbidden")
     if forb is None:
         forb = cfg.get("deprecated")
     if forb is None:
-        forb = [["suf", s] for s in defaults.static_files_forbidden]
+        forb = [["suf", s] for s in dforbidden]
     return allowed, forb
 
 
@@ -231,7 +234,10 @@ def run_config(base, case, cfg, lookups, do_served, thorough):
     obs = {}
     dirs = [os.path.join(base, d) for d in case["dirs"]]
     with djsetup.components_settings(**cfg_settings(cfg, dirs, case.get("app_dirs") or [])):
-        finder = ComponentsFileSystemFinder()
+        try:
+            finder = ComponentsFileSystemFinder()
+        except Exception as e:  # noqa   (a crash is a finding about the implementation, never a harness error)
+            return {"crash": "ComponentsFileSystemFinder() raised %s: %.200s" % (type(e).__name__, e)}
         obs["locs"] = [r for _, r in finder.locations]
         obs["prefixes"] = sorted({p for p, _ in finder.locations})
         finds = []
@@ -655,6 +661,10 @@ def run_case(base, case, thorough=False):
         for ci, cfg in enumerate(case["configs"]):
             do_served = bool(case.get("serve")) and (ci < 2 or is_default(cfg))
             obs = run_config(base, case, cfg, lookups, do_served, thorough)
+            if "crash" in obs:
+                fails.append(("c17-find-error", obs["crash"].replace(base, BTOK),
+                              {k: case[k] for k in ("kind", "pdirs", "pfiles", "dirs", "apps", "app_dirs") if k in case} | {"config": cfg, "lookups": case["lookups"]}))
+                continue
             if locs0 is None:
                 locs0 = obs["locs"]
                 for r in locs0:
@@ -805,7 +815,7 @@ FILE_NAMES = ["a.js", "a.min.js", "a.minXjs", "abdxjs.js", "a.d.js", "x.css", "x
               "t.tpl", "w[1].js", "a+b.css", "a$.js", "a.js$", "(x).ts", "a^b.js", "a|b.js", "q?.js", "st*r.js", "b\\s.js",
               "sp ace.js", "ünï.js", "a.јs", "a.svg", "a.jpeg", "..js", "...", "a..js", "a.js.", "_p.js",
               "a.min\njs", "{2}.js", "a.tsx", "py", "a.htmlx", "t.HTML", "m.Py", "evil.py\n", "CVS", ".hidden.js", "SECRETS.PY", "Logo.PNG",
-              "a.a"]
+              "a.a", "a.js.map", "a.css.orig", "lib.html.css", "data.json", "secrets.js.txt", "readme.txt", "jquery.pyramid.js"]
 DIR_NAMES = ["sub", "d.js", "secret", "_priv", "py", "x.py", "s.min.js", "n\nl", "a b", "...", "a.js.d", "t.html", ".git", "a.js"]
 SUFFIXES = [".js", ".min.js", ".d.js", ".css", "", "js", ".py", ".html", ".j.", "a.js", "/a.js", "s/a.js", "b/a.js", ".js\n", "\n",
             ".JS", "[1].js", "$", ".js$", "+b.css", "\\s.js", ".*", ".", "..", "?.js", "(x).ts", "|b.js", "^b.js", "ï.js",
@@ -1068,9 +1078,9 @@ def run_valid_cases(chk, roots, n_cfg, n_names, follow_up):
             names += ["a" + s, "a" + s + "\n", "d/" + s, s[1:] if s else "q", ("a" + s)[:-1] + "X" if s else "q"]
         obs = []
         with djsetup.components_settings(**cfg_settings(cfg, [root])):
-            finder = ComponentsFileSystemFinder()
             for nm in names:
                 try:
+                    finder = ComponentsFileSystemFinder.__new__(ComponentsFileSystemFinder)
                     v = bool(finder._is_path_valid(nm))
                 except Exception as e:  # noqa
                     v = None
@@ -1202,6 +1212,8 @@ def run(tier, seed):
         ov.disable()
         roots.cleanup()
     chk.extra.update(STATS)
+    import gen_c17
+    chk.extra["generator_error"] = gen_c17.default_lists()[2] or None
     chk.extra["literal_reading_corners"] = {
         "trailing_newline": "a suffix s is compiled to re.escape(s)+'$'; `$` also matches before ONE final newline. Observed on the "
                             "implementation in this run: %d (file, config) pairs with a name ending in '\\n', of which %d are judged differently by "
